@@ -25,6 +25,9 @@ ASSUMPTIONS = ["dispatch='same' only; other dispatchers are modelled-not-verifie
                "containers hold HasTraits instances or None; containers of containers are reached only through "
                "an object (kids.items.kids.items), not List(List(...))",
                "handlers do not raise and do not mutate the graph while being called",
+               "add_trait over an existing name keeps its metadata (replacing a trait by one with different "
+               "metadata fires no trait_added and is outside the statement)",
+               "hooks of a handler whose owner was collected are not judged (they are never called again)",
                "simplified list mutators only (append/insert/del/setitem/clear/extend with in-range indices); "
                "slices and the event normal form are C05's subject"]
 EXHAUSTIVE = {"quick": False, "thorough": True}
